@@ -52,6 +52,10 @@ impl InlineCache {
   /// Attempt to retrieve the property cache at a given slot
   /// for the provided class
   pub fn get_property_cache(&self, inline_slot: usize, class: ObjRef<Class>) -> Option<usize> {
+    #[cfg(feature = "verif")]
+    if crate::verif::caches_disabled() {
+      return None;
+    }
     debug_assert!(inline_slot < self.property.len());
     match unsafe { self.property.get_unchecked(inline_slot) } {
       Some(cache) => {
@@ -90,6 +94,10 @@ impl InlineCache {
   /// Attempt to retrieve the invoke cache at a given slot
   /// for the provided class
   pub fn get_invoke_cache(&self, inline_slot: usize, class: ObjRef<Class>) -> Option<Value> {
+    #[cfg(feature = "verif")]
+    if crate::verif::caches_disabled() {
+      return None;
+    }
     debug_assert!(inline_slot < self.invoke.len());
     match unsafe { self.invoke.get_unchecked(inline_slot) } {
       Some(cache) => {
@@ -122,6 +130,19 @@ impl InlineCache {
   fn set_invoke(&mut self, inline_slot: usize, value: Option<InvokeCache>) {
     debug_assert!(inline_slot < self.invoke.len());
     unsafe { *self.invoke.get_unchecked_mut(inline_slot) = value };
+  }
+}
+
+#[cfg(feature = "verif")]
+impl InlineCache {
+  /// Number of property cache slots
+  pub fn verif_property_len(&self) -> usize {
+    self.property.len()
+  }
+
+  /// Number of invoke cache slots
+  pub fn verif_invoke_len(&self) -> usize {
+    self.invoke.len()
   }
 }
 
